@@ -751,4 +751,108 @@ theorem overflow_int {n d : Nat} (hn : 0 < n) (hd : 0 < d) :
     · intro h; exact absurd h (by simp)
     · intro h; omega
 
+/-! ## Exact values, zero, the bottom of the subnormal range -/
+
+theorem finite_lt {b : Nat} (h : b < 2047 * 2^52) : b < 2^63 := by omega
+
+theorem bitsToNat_zero : bitsToNat 0 = 0 := by decide
+theorem bitsToNat_one : bitsToNat 1 = 1 := by decide
+
+theorem bitsToNat_inj {b c : Nat} (hb : b < 2^63) (hc : c < 2^63) (h : bitsToNat b = bitsToNat c) :
+    b = c := by
+  rcases Nat.lt_trichotomy b c with h1 | h1 | h1
+  · have := bitsToNat_strictMono h1 hc; omega
+  · exact h1
+  · have := bitsToNat_strictMono h1 hb; omega
+
+/-- every finite double is below the overflow midpoint -/
+theorem bitsToNat_lt_mid {b : Nat} (hb : b < 2047 * 2^52) : bitsToNat b < (2^54 - 1) * 2^2044 := by
+  unfold bitsToNat
+  have e1 : b / 2^52 % 2^11 = b / 2^52 := by omega
+  rw [e1]
+  have hm : b % 2^52 < 2^52 := Nat.mod_lt _ (by positivity)
+  have he : b / 2^52 ≤ 2046 := by omega
+  have hG := two_pow_pos' 2044
+  generalize b / 2^52 = e at *
+  generalize b % 2^52 = m at *
+  by_cases h0 : e = 0
+  · rw [if_pos h0]
+    have : (2^54 - 1) * 1 ≤ (2^54 - 1) * 2^2044 := Nat.mul_le_mul_left _ hG
+    omega
+  · rw [if_neg h0]
+    have a1 : 2^(e - 1) ≤ 2^2045 := Nat.pow_le_pow_right (by norm_num) (by omega)
+    rw [pow2045] at a1
+    have a2 : (2^52 + m) * 2^(e - 1) ≤ (2^53 - 1) * (2 * 2^2044) := Nat.mul_le_mul (by omega) a1
+    have a3 : (2^53 - 1) * (2 * 2^2044) = (2^54 - 2) * 2^2044 := by ring
+    have a4 : (2^54 - 2) * 2^2044 < (2^54 - 1) * 2^2044 := Nat.mul_lt_mul_of_pos_right (by norm_num) hG
+    omega
+
+theorem gridVal_zero : GridVal 0 := ⟨0, 0, by simp, Or.inl ⟨rfl, by norm_num⟩⟩
+theorem gridVal_one : GridVal 1 := ⟨1, 0, by simp, Or.inl ⟨rfl, by norm_num⟩⟩
+
+/-- a double's exact value rounds to itself (integer form) -/
+theorem exact_int {n d b : Nat} (hb : b < 2047 * 2^52) (hn : 0 < n) (hd : 0 < d)
+    (h : n * 2^1074 = bitsToNat b * d) : posRatToBits n d = some b := by
+  cases hres : posRatToBits n d with
+  | none =>
+    have := (overflow_int hn hd).1 hres
+    rw [h] at this
+    have h1 := Nat.le_of_mul_le_mul_right this hd
+    have h2 := bitsToNat_lt_mid hb
+    omega
+  | some b' =>
+    obtain ⟨hfin, hnear⟩ := nearest_int hn hd hres
+    have h1 := (hnear _ (bitsToNat_grid b)).1
+    rw [h] at h1
+    simp only [sub_self, abs_zero] at h1
+    have h2 : ((bitsToNat b * d : Nat) : Int) - ((bitsToNat b' * d : Nat) : Int) = 0 :=
+      abs_eq_zero.1 (le_antisymm h1 (abs_nonneg _))
+    have h3 : bitsToNat b' * d = bitsToNat b * d := by
+      have := sub_eq_zero.1 h2; exact_mod_cast this.symm
+    have h4 := Nat.eq_of_mul_eq_mul_right hd h3
+    rw [bitsToNat_inj (finite_lt hfin) (finite_lt hb) h4]
+
+/-- at or below half the smallest subnormal the answer is +0, and only there (integer form) -/
+theorem underflow_int {n d : Nat} (hn : 0 < n) (hd : 0 < d) :
+    posRatToBits n d = some 0 ↔ 2 * (n * 2^1074) ≤ d := by
+  generalize hN : n * 2^1074 = N
+  have hNpos : 0 < N := by rw [← hN]; exact Nat.mul_pos hn (two_pow_pos' _)
+  constructor
+  · intro h
+    obtain ⟨_, hnear⟩ := nearest_int hn hd h
+    have h1 := (hnear 1 gridVal_one).1
+    rw [bitsToNat_zero, hN] at h1
+    simp only [Nat.zero_mul, Nat.one_mul, Nat.cast_zero, sub_zero] at h1
+    rcases abs_cases ((N : Int) - (d : Int)) with ⟨e, _⟩ | ⟨e, _⟩ <;> rw [e] at h1 <;>
+      rw [abs_of_nonneg (by positivity)] at h1 <;> omega
+  · intro h
+    cases hres : posRatToBits n d with
+    | none =>
+      have := (overflow_int hn hd).1 hres
+      rw [hN] at this
+      have hG := two_pow_pos' 2044
+      have : 1 * d ≤ (2^54 - 1) * 2^2044 * d := Nat.mul_le_mul_right _ (Nat.mul_pos (by norm_num) hG)
+      omega
+    | some b =>
+      obtain ⟨hfin, hnear⟩ := nearest_int hn hd hres
+      obtain ⟨h1, h2⟩ := hnear 0 gridVal_zero
+      rw [hN] at h1 h2
+      simp only [Nat.zero_mul, Nat.cast_zero, sub_zero] at h1 h2
+      rw [abs_of_nonneg (by positivity : (0:Int) ≤ (N : Int))] at h1 h2
+      have hV : bitsToNat b ≤ 1 := by
+        by_contra hc
+        have h3 : 2 * d ≤ bitsToNat b * d := Nat.mul_le_mul_right _ (by omega)
+        rcases abs_cases ((N : Int) - ((bitsToNat b * d : Nat) : Int)) with ⟨e, _⟩ | ⟨e, _⟩ <;>
+          rw [e] at h1 <;> omega
+      rcases Nat.lt_or_ge (bitsToNat b) 1 with h3 | h3
+      · have : bitsToNat b = bitsToNat 0 := by rw [bitsToNat_zero]; omega
+        rw [bitsToNat_inj (finite_lt hfin) (by norm_num) this]
+      · have hb1 : bitsToNat b = 1 := by omega
+        have hb : b = 1 := bitsToNat_inj (finite_lt hfin) (by norm_num) (by rw [hb1, bitsToNat_one])
+        rw [hb1] at h1 h2
+        simp only [Nat.one_mul] at h1 h2
+        have : b % 2 = 0 := by
+          apply h2 _ (by omega)
+          rcases abs_cases ((N : Int) - (d : Int)) with ⟨e, _⟩ | ⟨e, _⟩ <;> rw [e] at h1 ⊢ <;> omega
+        omega
 end KaVerif.Rounding
